@@ -100,6 +100,22 @@ theorem C08_gen_trace (W : World N V T) (g : GenTypes T) {σ : Type} (step : σ 
     wrapTrace W g step st none sends = Spec.genTrace W g step st none sends := by
   rw [genTrace_eq_wrapTrace]; rfl
 
+theorem forwardInput_pyIsNone (x : Option V) : forwardInput pyIsNone x = x := by
+  cases x <;> rfl
+
+/-- **C08 (lazy generators).**  The lazy wrappers forward `send(x)` for *every* sent value `x` — falsy ones (0, '',
+False) included — and `next()` only for None, so a lazily wrapped generator (sync or async) has exactly the trace of
+the specification as well: for every raw generator, declared types, transformer and input history. -/
+theorem C08_gen_trace_lazy (W : World N V T) (g : GenTypes T) {σ : Type} (step : σ → Option V → Step σ V)
+    (st : σ) (sends : List (Option V)) :
+    lazyTrace W g step pyIsNone st none sends = Spec.genTrace W g step st none sends := by
+  unfold lazyTrace
+  have : sends.map (forwardInput pyIsNone) = sends := by
+    induction sends with
+    | nil => rfl
+    | cons a l ih => simp [forwardInput_pyIsNone, ih]
+  rw [this, forwardInput_pyIsNone, C08_gen_trace]
+
 /-! ### the binding -/
 
 /-- what `parse_data` hands over, whichever search strategy `Options.data_first_search` selects -/
@@ -775,6 +791,21 @@ example :
 /-- … and a value that does not convert stops the call before the body -/
 example : Spec.expected W₁ sDemo [70] [(4, 1)] = some .perr ∧ call W₁ sDemo {} [70] [(4, 1)] = .perr := by decide
 
+/-! ### why the forwarding test must be `is not None` -/
+
+/-- a forwarder that tests truthiness (`gen.send(sent) if sent else next(gen)`) instead: 0 counts as "nothing sent" -/
+def truthyIsNone : Option Nat → Bool
+  | none => true
+  | some v => v == 0
+
+/-- with a truthiness test a sent 0 reaches the raw generator as `next()`: the running generator `demoStep'` (which
+ends when resumed with None) stops early — `[0, stop]` where the undecorated generator gives `[0, 100, 205, stop]` -/
+def demoStep' (k : Nat) (inp : Option Nat) : Step Nat Nat :=
+  match k, inp with
+  | 0, _ => .yield 0 1
+  | _, none => .ret none
+  | k + 1, some x => .yield (100 * (k + 1) + x) (k + 2)
+
 /-! ### the asynchronous wrappers before the fix -/
 
 /-- a raw generator that yields `100·k + (what it was resumed with)` four times -/
@@ -792,5 +823,12 @@ theorem C08_legacy_asend_witness :
       = [.yielded 0, .yielded 101, .yielded 202, .yielded 303] ∧
     wrapTrace W₂ {} demoStep 0 none [some 1, some 2, some 3]
       = [.yielded 0, .yielded 101, .yielded 202, .yielded 303] := by decide
+
+theorem C08_truthy_forward_witness :
+    lazyTrace W₂ {} demoStep' truthyIsNone 0 none [some 0, some 5, none] = [.yielded 0, .returned none] ∧
+    lazyTrace W₂ {} demoStep' pyIsNone 0 none [some 0, some 5, none]
+      = [.yielded 0, .yielded 100, .yielded 205, .returned none] ∧
+    Spec.genTrace W₂ {} demoStep' 0 none [some 0, some 5, none]
+      = [.yielded 0, .yielded 100, .yielded 205, .returned none] := by decide
 
 end Utv.C08
